@@ -291,16 +291,16 @@ pub fn parse_udp_relay_header(mut buf: Bytes) -> Result<(Bytes, u16, Bytes), Err
 #[inline]
 #[must_use]
 pub fn udp_relay_response(target: SocketAddr, data: &[u8]) -> Vec<u8> {
-    // Write the header
+    // Write the header: RSV (2 bytes), FRAG, then ATYP *before* the address (RFC 1928 section 7)
     let mut content = vec![0; 3];
     match target.ip() {
         IpAddr::V4(ip) => {
-            content.extend(ip.octets());
             content.extend([magics::ATYP_IPV4]);
+            content.extend(ip.octets());
         }
         IpAddr::V6(ip) => {
-            content.extend(ip.octets());
             content.extend([magics::ATYP_IPV6]);
+            content.extend(ip.octets());
         }
     }
     content.extend(&target.port().to_be_bytes());
